@@ -150,6 +150,17 @@ Proof.
   destruct (read_full 8 r) as [[bf r']| | |] eqn:E; try discriminate. cbn [bind] in H. inversion H; subst. rewrite (read_full_app_exact _ _ _ rest E). reflexivity.
 Qed.
 
+(* the wire fields that have a Go counterpart, under the Go field's name, in wire order *)
+Fixpoint bind_known (gfs : list (name * gtype)) (names : list name) (ds : list dval) : list (name * dval) :=
+  match names, ds with
+  | n :: ns, d :: ds' => match find_field gfs (lower_name n) with
+                         | Some (gn, _) => (gn, d) :: bind_known gfs ns ds'
+                         | None => bind_known gfs ns ds'
+                         end
+  | _, _ => []
+  end.
+Definition zeros_of (te : tenv) (gfs : list (name * gtype)) : list (name * dval) := map (fun p => (fst p, zero te (snd p))) gfs.
+
 Section RT.
 Variable nm : namemap.
 Variable F : name -> list name.
@@ -185,10 +196,14 @@ Inductive sgv : gtype -> gval -> Prop :=
 | sg_nilptr n : sgv (TPtr (TStruct n)) VNil
 | sg_seen a : sgv (TPtr (TStruct (ty_of a))) (VSeen RStruct a)
 | sg_struct a ty fs c gfs : a <> 0 -> ty_of a = ty -> nm_lookup nm ty = Some c -> tm_lookup tm c = Some (TStruct ty) ->
-    te_lookup te ty = Some gfs -> map fst fs = map fst gfs -> fields_findable gfs ->
+    te_lookup te ty = Some gfs ->
     Forall valid_rune c -> map lower_name (map fst fs) = F c -> Forall (Forall valid_rune) (F c) ->
     Z.of_nat (length fs) <= 2147483647 ->
-    Forall2 (fun f g => sgv (snd g) (snd f)) fs gfs -> sgv (TPtr (TStruct ty)) (VStruct a ty fs).
+    (* the rendering lists ANY fields in ANY order: those with a Go counterpart carry a value of that field's type,
+       the others any value of the fragment *)
+    Forall (fun f => forall gn gt, find_field gfs (lower_name (fst f)) = Some (gn, gt) -> sgv gt (snd f)) fs ->
+    Forall (fun f => find_field gfs (lower_name (fst f)) = None -> exists t', t' <> TIface /\ sgv t' (snd f) /\ elem_pos_ok (snd f)) fs ->
+    sgv (TPtr (TStruct ty)) (VStruct a ty fs).
 
 (* the decoded graph: the value at this position, and the heap cells created for the objects
    met for the first time, in order *)
@@ -203,9 +218,11 @@ Inductive dg : list (Z * rkind) -> gval -> dval -> list rcell -> list (Z * rkind
 | dg_nil refs : dg refs VNil DNil [] refs
 | dg_seen refs a i : ref_find refs a RStruct 0 = Some i -> dg refs (VSeen RStruct a) (DPtr (Z.to_nat i) (ty_of a)) [] refs
 | dg_hit refs a ty fs i : ref_find refs a RStruct 0 = Some i -> dg refs (VStruct a ty fs) (DPtr (Z.to_nat i) (ty_of a)) [] refs
-| dg_new refs a ty fs ds cells refs' : ref_find refs a RStruct 0 = None ->
+| dg_new refs a ty fs gfs ds cells refs' : ref_find refs a RStruct 0 = None -> te_lookup te ty = Some gfs ->
     dgs (refs ++ [(a, RStruct)]) (map snd fs) ds cells refs' ->
-    dg refs (VStruct a ty fs) (DPtr (length refs) ty) (RObj ty (Some (combine (map fst fs) ds)) :: cells) refs'
+    (* every Go field holds the value of the wire field of its name (the last one, if repeated), else its zero value *)
+    dg refs (VStruct a ty fs) (DPtr (length refs) ty)
+       (RObj ty (Some (assoc_all (zeros_of te gfs) (bind_known gfs (map fst fs) ds))) :: cells) refs'
 | dg_slice refs ty l e ds cells refs' : dgs (refs ++ [(0, RSlice)]) l ds cells refs' ->
     dg refs (VSlice 0 ty l) (DSlice e ds) (RList (Some (DSlice e ds)) :: cells) refs'
 | dg_map0 refs ty kt vt : dg refs (VMap 0 ty []) (DMapV kt vt []) [] refs                 (* nil and empty maps: null on the wire *)
@@ -369,9 +386,10 @@ Proof.
 Qed.
 
 (* ---- the fields of an object ---- *)
-Lemma fields_rt : forall fs gfs gall,
-  Forall (fun f => rt_ok (snd f)) fs -> Forall2 (fun f g => sgv (snd g) (snd f)) fs gfs -> map fst fs = map fst gfs ->
-  (forall n t, In (n, t) gfs -> find_field gall (lower_name n) = Some (n, t)) ->
+Lemma fields_rt : forall fs gall,
+  Forall (fun f => rt_ok (snd f)) fs ->
+  Forall (fun f => forall gn gt, find_field gall (lower_name (fst f)) = Some (gn, gt) -> sgv gt (snd f)) fs ->
+  Forall (fun f => find_field gall (lower_name (fst f)) = None -> exists t', t' <> TIface /\ sgv t' (snd f) /\ elem_pos_ok (snd f)) fs ->
   forall st st', enm st = nm -> cls_ok F (ecls st) -> write_items (map snd fs) st = Ok st' ->
   cls_ok F (ecls st') /\ enm st' = enm st /\ grows st st' /\
   exists bs ds cells, ebytes st' = ebytes st ++ bs /\ length ds = length fs /\ dgs (erefs st) (map snd fs) ds cells (erefs st') /\
@@ -379,20 +397,23 @@ Lemma fields_rt : forall fs gfs gall,
        exists dst', Inv st' dst' /\ dheap dst' = dheap dst ++ cells /\
        forall f acc, (need_ditems (map snd fs) <= f)%nat ->
          R_rfs (readers_at te tm f) gall (map lower_name (map fst fs)) acc dst (bs ++ rest) =
-         Ok (assoc_all acc (combine (map fst fs) ds), rest, dst')).
+         Ok (assoc_all acc (bind_known gall (map fst fs) ds), rest, dst')).
 Proof.
-  induction fs as [|[n x] r IH]; intros gfs gall HF H2 HN FF st st' En C W.
+  induction fs as [|[n x] r IH]; intros gall HF HK HU st st' En C W.
   - cbn in W. inversion W; subst st'. split; [exact C|]. split; [reflexivity|]. split; [apply grows_refl|].
     exists [], [], []. split; [rewrite app_nil_r; reflexivity|]. split; [reflexivity|]. split; [constructor|].
     intros _ dst rest I. exists dst. split; [exact I|]. split; [rewrite app_nil_r; reflexivity|].
     intros f acc Hf. cbn [need_ditems map] in Hf. destruct f as [|f]; [lia|]. rewrite rfs_S. reflexivity.
-  - inversion HF as [|? ? Hx Hr]; subst. inversion H2 as [|? [gn gt] ? gr Sx Sr]; subst. cbn [fst snd map] in *.
-    inversion HN as [[HN1 HN2]]. subst gn.
+  - inversion HF as [|? ? Hx Hr]; subst. inversion HK as [|? ? Kx Kr]; subst. inversion HU as [|? ? Ux Ur]; subst. cbn [fst snd map] in *.
     cbn [write_items] in W. destruct (write_data x st) as [s1| | |] eqn:E1; try discriminate.
-    destruct (Hx gt st s1 En Sx C E1) as (C1 & N1 & G1 & b1 & d1 & c1 & B1 & LB1 & D1 & P1).
+    (* the type at which this wire field is read *)
+    assert (TX : exists tx, sgv tx x /\ match find_field gall (lower_name n) with Some (_, gt) => tx = gt | None => tx <> TIface /\ elem_pos_ok x end).
+    { destruct (find_field gall (lower_name n)) as [[gn gt]|] eqn:FF; [exists gt; split; [eapply Kx; reflexivity|reflexivity]|].
+      destruct (Ux eq_refl) as (t' & NI & S' & EP). exists t'. split; [exact S'|split; assumption]. }
+    destruct TX as (tx & Sx & TXs).
+    destruct (Hx tx st s1 En Sx C E1) as (C1 & N1 & G1 & b1 & d1 & c1 & B1 & LB1 & D1 & P1).
     assert (En1 : enm s1 = nm) by (rewrite N1; exact En).
-    assert (FF' : forall n0 t0, In (n0, t0) gr -> find_field gall (lower_name n0) = Some (n0, t0)) by (intros n0 t0 I0; apply FF; right; exact I0).
-    destruct (IH gr gall Hr Sr HN2 FF' s1 st' En1 C1 W) as (C2 & N2 & G2 & b2 & ds & c2 & B2 & L2 & D2 & P2).
+    destruct (IH gall Hr Kr Ur s1 st' En1 C1 W) as (C2 & N2 & G2 & b2 & ds & c2 & B2 & L2 & D2 & P2).
     split; [exact C2|]. split; [rewrite N2; exact N1|]. split; [eapply grows_trans; eassumption|].
     exists (b1 ++ b2), (d1 :: ds), (c1 ++ c2). split; [rewrite B2, B1, <- app_assoc; reflexivity|].
     split; [cbn [length]; rewrite L2; reflexivity|]. split; [econstructor; eassumption|].
@@ -400,9 +421,11 @@ Proof.
     destruct (P1 (small_back _ _ G2 Sm) dst (b2 ++ rest) I) as (dst1 & I1 & H1 & V1).
     destruct (P2 Sm dst1 rest I1) as (dst2 & I2 & H2' & V2).
     exists dst2. split; [exact I2|]. split; [rewrite H2', H1, <- app_assoc; reflexivity|].
-    intros f acc Hf. cbn [need_ditems] in Hf. destruct f as [|f]; [lia|]. rewrite rfs_S. unfold rfs_step.
-    rewrite (FF n gt (or_introl eq_refl)). rewrite <- app_assoc. destruct (V1 f ltac:(lia)) as [V1a _]. rewrite V1a. cbn [bind].
-    rewrite V2 by lia. reflexivity.
+    intros f acc Hf. cbn [need_ditems] in Hf. destruct f as [|f]; [lia|]. rewrite rfs_S. unfold rfs_step. cbn [bind_known].
+    rewrite <- app_assoc. destruct (V1 f ltac:(lia)) as (V1a & _ & V1c).
+    destruct (find_field gall (lower_name n)) as [[gn gt]|] eqn:FF.
+    + subst tx. rewrite V1a. cbn [bind assoc_all]. rewrite V2 by lia. reflexivity.
+    + destruct TXs as [NI EP]. destruct (V1c NI EP) as (d0 & RD0 & _). rewrite RD0. cbn [bind snd]. rewrite V2 by lia. reflexivity.
 Qed.
 
 (* ---- a new object: class definition (when new), instance tag, fields ---- *)
@@ -442,14 +465,16 @@ Proof. induction gfs as [|[n t] r IH]; cbn [map combine fst snd]; [reflexivity|]
 
 Lemma rt_struct_new a ty fs c gfs st st' :
   ty_of a = ty -> nm_lookup nm ty = Some c -> tm_lookup tm c = Some (TStruct ty) -> te_lookup te ty = Some gfs ->
-  map fst fs = map fst gfs -> fields_findable gfs -> Forall valid_rune c -> map lower_name (map fst fs) = F c ->
+  Forall valid_rune c -> map lower_name (map fst fs) = F c ->
   Forall (Forall valid_rune) (F c) -> Z.of_nat (length fs) <= 2147483647 ->
-  Forall2 (fun f g => sgv (snd g) (snd f)) fs gfs -> Forall (fun f => rt_ok (snd f)) fs ->
+  Forall (fun f => forall gn gt, find_field gfs (lower_name (fst f)) = Some (gn, gt) -> sgv gt (snd f)) fs ->
+  Forall (fun f => find_field gfs (lower_name (fst f)) = None -> exists t', t' <> TIface /\ sgv t' (snd f) /\ elem_pos_ok (snd f)) fs ->
+  Forall (fun f => rt_ok (snd f)) fs ->
   enm st = nm -> cls_ok F (ecls st) -> ref_find (erefs st) a RStruct 0 = None ->
   write_fields fs (struct_prefix {| ecls := ecls st; erefs := erefs st ++ [(a, RStruct)]; enm := enm st; eout := eout st |} ty fs) = Ok st' ->
   rt_post (TPtr (TStruct ty)) (VStruct a ty fs) st st'.
 Proof.
-  intros TA NL TM TE HN [ND FFD] Vc HF VF LN H2 HR En C RF W.
+  intros TA NL TM TE Vc HF VF LN HK HU HR En C RF W.
   set (st1 := {| ecls := ecls st; erefs := erefs st ++ [(a, RStruct)]; enm := enm st; eout := eout st |}) in *.
   assert (NL1 : nm_lookup (enm st1) ty = Some c) by (cbn [enm st1]; rewrite En; exact NL).
   destruct (struct_prefix_bytes st1 ty fs c NL1) as (P1 & P2 & PC).
@@ -460,7 +485,7 @@ Proof.
   { destruct (cls_index (ecls st1) c 0); destruct PC as [PC1 _]; rewrite PC1; [exact C|].
     intros c' fs' I. apply in_app_or in I. destruct I as [I|[I|[]]]; [apply C; exact I|]. inversion I; subst. exact HF. }
   rewrite write_fields_items in W.
-  destruct (fields_rt fs gfs gfs HR H2 HN FFD st4 st' En4 C4 W) as (C2 & N2 & G2 & b2 & ds & c2 & B2 & L2 & D2 & PF).
+  destruct (fields_rt fs gfs HR HK HU st4 st' En4 C4 W) as (C2 & N2 & G2 & b2 & ds & c2 & B2 & L2 & D2 & PF).
   assert (G14 : (length (ecls st1) <= length (ecls st4))%nat).
   { destruct (cls_index (ecls st1) c 0); destruct PC as [PC1 _]; rewrite PC1; [lia|rewrite app_length; cbn; lia]. }
   split; [exact C2|]. split; [rewrite N2, P2; reflexivity|].
@@ -472,9 +497,9 @@ Proof.
   assert (LH : (1 <= length hdr)%nat).
   { destruct (cls_index (ecls st1) c 0); destruct PC as [_ PC2]; rewrite PC2 in HB; apply app_inv_head in HB; subst hdr;
       [unfold tagbytes; destruct (_ <=? 15); cbn; lia|cbn; lia]. }
-  exists (hdr ++ b2), (DPtr (length (erefs st)) ty), (RObj ty (Some (combine (map fst fs) ds)) :: c2).
+  exists (hdr ++ b2), (DPtr (length (erefs st)) ty), (RObj ty (Some (assoc_all (zeros_of te gfs) (bind_known gfs (map fst fs) ds))) :: c2).
   split; [rewrite B2, HB, <- app_assoc; reflexivity|]. split; [rewrite app_length; lia|].
-  split; [apply dg_new; [exact RF|rewrite P1 in D2; exact D2]|].
+  split; [apply dg_new; [exact RF|exact TE|rewrite P1 in D2; exact D2]|].
   intros Sm dst rest I. pose proof (Inv_len _ _ I) as IL. destruct I as [I1 I2].
   pose proof (small_back _ _ G2 Sm) as Sm4.
   (* the decoder state after the class definition (if any), with the cell of the new object *)
@@ -483,7 +508,7 @@ Proof.
   { split; [reflexivity|]. cbn [heap_push dheap dstC]. rewrite map_app, I2, P1. cbn [erefs st1]. rewrite map_app. cbn. unfold ref_tag. cbn. rewrite TA. reflexivity. }
   destruct (PF Sm (heap_push dstC (RObj ty None)) rest IP) as (dst2 & J2 & H2h & V2).
   cbn [heap_push dheap dtypes dstC] in H2h.
-  set (fields' := combine (map fst fs) ds).
+  set (fields' := assoc_all (zeros_of te gfs) (bind_known gfs (map fst fs) ds)).
   set (dst' := heap_set dst2 (length (dheap dst)) (RObj ty (Some fields'))).
   assert (HH : dheap dst' = dheap dst ++ RObj ty (Some fields') :: c2).
   { unfold dst', heap_set. cbn [dheap]. rewrite H2h, <- app_assoc. cbn [app]. apply list_set_app. }
@@ -494,10 +519,7 @@ Proof.
   assert (RO : forall g dstX, (need_ditems (map snd fs) <= g)%nat -> dstX = dstC ->
     R_ro (readers_at te tm (S g)) ty (F c) dstX (b2 ++ rest) = Ok (DPtr (length (dheap dst)) ty, rest, dst')).
   { intros g dstX Hg ->. rewrite ro_S. unfold ro_step. rewrite TE. cbv zeta. rewrite <- HF.
-    rewrite (V2 g _ Hg). cbn [bind]. rewrite zeros_combine. rewrite <- HN.
-    pose proof (assoc_all_replace (map fst fs) (map (fun p => zero te (snd p)) gfs) ds []) as AR. cbn [app] in AR.
-    rewrite AR; [reflexivity|rewrite HN; exact ND| |rewrite map_length; exact L2|intros k _ []].
-    rewrite !map_length. apply (f_equal (@length name)) in HN. rewrite !map_length in HN. symmetry. exact HN. }
+    rewrite (V2 g _ Hg). reflexivity. }
   intros f Hf. rewrite need_d_struct in Hf.
   assert (SV : set_value te (dheap dst') (TPtr (TStruct ty)) (DPtr (length (dheap dst)) ty) = Ok (DPtr (length (dheap dst)) ty)) by (cbn [set_value]; rewrite name_eqb_refl'; reflexivity).
   rewrite IL in *.
@@ -990,7 +1012,7 @@ Proof.
       * intros R dst rest. rewrite E. cbn [app]. unfold rf_step. rewrite rs_date by exact T. rewrite DT. cbn [bind fst snd set_value]. reflexivity.
       * intros f dst rest. rewrite E. cbn [app]. exists (DTime s (n - n mod 1000000)). split; [rewrite rd_S, rdv_date by exact T; rewrite DT; reflexivity|intros heap; reflexivity].
   - (* struct *)
-    inversion Hs as [| | | | | | | | | |? ? ? c gfs NZ TA NL TM TE HN FFD Vc HF VF LN H2]; subst.
+    inversion Hs as [| | | | | | | | | |? ? ? c gfs NZ TA NL TM TE Vc HF VF LN HK HU]; subst.
     rewrite write_data_struct in W. unfold check_ref in W.
     destruct (ref_find (erefs st) a RStruct 0) as [i|] eqn:RF.
     + inversion W; subst st'. apply rt_ref; [exact RF|apply dg_hit; exact RF|exact C].
@@ -1013,23 +1035,56 @@ Proof.
     apply rt_ref; [exact RF|apply dg_seen; exact RF|exact C].
 Qed.
 
+(* when the rendering lists exactly the fields of the Go type (what the encoder does for a value of
+   that type), every field holds its own value: C01 as the special case of binding by name *)
+Lemma bind_known_exact gall : forall sub ds, (forall n t, In (n, t) sub -> find_field gall (lower_name n) = Some (n, t)) ->
+  length ds = length sub -> bind_known gall (map fst sub) ds = combine (map fst sub) ds.
+Proof.
+  induction sub as [|[n t] r IH]; intros ds FF L; [destruct ds; reflexivity|].
+  destruct ds as [|d ds']; [discriminate|]. cbn [map fst bind_known combine]. rewrite (FF n t (or_introl eq_refl)).
+  rewrite IH; [reflexivity|intros n0 t0 I0; apply FF; right; exact I0|cbn in L; lia].
+Qed.
+Lemma exact_fields gfs ds : fields_findable gfs -> length ds = length gfs ->
+  assoc_all (zeros_of te gfs) (bind_known gfs (map fst gfs) ds) = combine (map fst gfs) ds.
+Proof.
+  intros [ND FF] L. rewrite bind_known_exact by assumption. unfold zeros_of. rewrite zeros_combine.
+  pose proof (assoc_all_replace (map fst gfs) (map (fun p => zero te (snd p)) gfs) ds [] ND) as AR. cbn [app] in AR.
+  apply AR; [rewrite !map_length; reflexivity|rewrite map_length; exact L|intros k _ []].
+Qed.
+
 (* a whole message: ToBytes, then ToObject *)
 Theorem graph_message_roundtrip a ty fs st' :
   sgv (TPtr (TStruct ty)) (VStruct a ty fs) -> write_data (VStruct a ty fs) (estate0 nm) = Ok st' -> small st' ->
-  exists ds cells, dgs [(a, RStruct)] (map snd fs) ds cells (erefs st') /\
+  exists gfs ds cells, te_lookup te ty = Some gfs /\ length ds = length fs /\ dgs [(a, RStruct)] (map snd fs) ds cells (erefs st') /\
     forall f, (need_d (VStruct a ty fs) <= f)%nat ->
       exists dst', R_rd (readers_at te tm f) dstate0 (ebytes st') = Ok (DPtr 0 ty, [], dst') /\
-                   dheap dst' = RObj ty (Some (combine (map fst fs) ds)) :: cells.
+                   dheap dst' = RObj ty (Some (assoc_all (zeros_of te gfs) (bind_known gfs (map fst fs) ds))) :: cells.
 Proof.
   intros Hs W Sm.
   destruct (graph_roundtrip _ _ (estate0 nm) st' eq_refl Hs (fun c fs0 (I : In (c, fs0) []) => match I with end) W)
     as (_ & _ & _ & bs & d & cells & B & _ & D & P).
-  inversion D as [| | | | | | | | |? ? ? ? ? RF|? ? ? ? ds cells' ? RF DS| | |]; subst; [discriminate|].
-  exists ds, cells'. split; [exact DS|]. intros f Hf.
+  inversion D as [| | | | | | | | |? ? ? ? ? RF|? ? ? ? gfs ds cells' ? RF TE DS| | |]; subst; [discriminate|].
+  exists gfs, ds, cells'. split; [exact TE|]. split.
+  { clear - DS. remember (map snd fs) as l eqn:EL. assert (LL : length l = length fs) by (subst l; apply map_length). rewrite <- LL. clear EL LL.
+    induction DS; cbn [length]; [reflexivity|]. f_equal. assumption. }
+  split; [exact DS|]. intros f Hf.
   destruct (P Sm dstate0 [] (conj eq_refl eq_refl)) as (dst' & _ & HH & V).
   exists dst'. destruct (V f Hf) as [_ [V2 _]]. split; [|exact HH].
   cbn in B. rewrite B. rewrite <- (app_nil_r bs). apply (V2 a ty fs eq_refl).
 Qed.
+
+(* ToObject(ToBytes(v)) with the fuel the decoder model gives itself *)
+Theorem graph_decode_encode a ty fs st' :
+  sgv (TPtr (TStruct ty)) (VStruct a ty fs) -> write_data (VStruct a ty fs) (estate0 nm) = Ok st' -> small st' ->
+  (need_d (VStruct a ty fs) <= decode_fuel (ebytes st'))%nat ->
+  exists gfs ds cells dst', te_lookup te ty = Some gfs /\ length ds = length fs /\ dgs [(a, RStruct)] (map snd fs) ds cells (erefs st') /\
+    decode te tm (ebytes st') = Ok (DPtr 0 ty, [], dst') /\
+    dheap dst' = RObj ty (Some (assoc_all (zeros_of te gfs) (bind_known gfs (map fst fs) ds))) :: cells.
+Proof.
+  intros Hs W Sm Hn. destruct (graph_message_roundtrip a ty fs st' Hs W Sm) as (gfs & ds & cells & TE & L & DS & V).
+  destruct (V _ Hn) as (dst' & V1 & V2). exists gfs, ds, cells, dst'. repeat split; assumption.
+Qed.
+
 (* ---- streams: n values written one after the other with one encoder (its tables persisting),
         read one after the other with one decoder ---- *)
 Fixpoint read_n (f n : nat) (dst : dstate) (bs : bytes) : dres (list dval) :=
@@ -1067,18 +1122,6 @@ Proof.
     destruct (V1 f ltac:(lia)) as [_ [V1b _]]. rewrite (V1b a ty fs eq_refl). cbn [bind]. rewrite V2 by lia. reflexivity.
 Qed.
 
-(* ToObject(ToBytes(v)) with the fuel the decoder model gives itself *)
-Theorem graph_decode_encode a ty fs st' :
-  sgv (TPtr (TStruct ty)) (VStruct a ty fs) -> write_data (VStruct a ty fs) (estate0 nm) = Ok st' -> small st' ->
-  (need_d (VStruct a ty fs) <= decode_fuel (ebytes st'))%nat ->
-  exists ds cells dst', dgs [(a, RStruct)] (map snd fs) ds cells (erefs st') /\
-    decode te tm (ebytes st') = Ok (DPtr 0 ty, [], dst') /\
-    dheap dst' = RObj ty (Some (combine (map fst fs) ds)) :: cells.
-Proof.
-  intros Hs W Sm Hn. destruct (graph_message_roundtrip a ty fs st' Hs W Sm) as (ds & cells & DS & V).
-  destruct (V _ Hn) as (dst' & V1 & V2). exists ds, cells, dst'. split; [exact DS|]. split; [exact V1|exact V2].
-Qed.
-
 (* ---- sharing: a decoded pointer is the ordinal of the address, and ordinals identify addresses ---- *)
 Lemma ref_find_app_hit : forall refs a k i0 i more, ref_find refs a k i0 = Some i -> ref_find (refs ++ more) a k i0 = Some i.
 Proof.
@@ -1090,7 +1133,7 @@ with dgs_extends : forall refs l ds cells refs', dgs refs l ds cells refs' -> ex
 with dges_extends : forall refs l ds cells refs', dges refs l ds cells refs' -> exists more, refs' = refs ++ more.
 Proof.
   - intros refs v d cells refs' H. destruct H; try (exists []; rewrite app_nil_r; reflexivity).
-    + destruct (dgs_extends _ _ _ _ _ H0) as [more E]. exists ((a, RStruct) :: more). rewrite E, <- app_assoc. reflexivity.
+    + match goal with X : dgs _ _ _ _ _ |- _ => destruct (dgs_extends _ _ _ _ _ X) as [more E] end. exists ((a, RStruct) :: more). rewrite E, <- app_assoc. reflexivity.
     + destruct (dgs_extends _ _ _ _ _ H) as [more E]. exists ((0, RSlice) :: more). rewrite E, <- app_assoc. reflexivity.
     + destruct (dges_extends _ _ _ _ _ H) as [more E]. exists ((0, Encoder.RMap) :: more). rewrite E, <- app_assoc. reflexivity.
   - intros refs l ds cells refs' H. destruct H; [exists []; rewrite app_nil_r; reflexivity|].
@@ -1110,8 +1153,10 @@ Proof.
   - destruct V as [V|(ty0 & fs0 & V)]; inversion V; subst. eexists; eexists. split; [reflexivity|]. intros more. apply ref_find_app_hit. assumption.
   - destruct V as [V|(ty0 & fs0 & V)]; inversion V; subst. eexists; eexists. split; [reflexivity|]. intros more. apply ref_find_app_hit. assumption.
   - destruct V as [V|(ty0 & fs0 & V)]; inversion V; subst.
-    destruct (dgs_extends _ _ _ _ _ H0) as [m E]. exists (Z.of_nat (length refs)), ty0. split; [rewrite Nat2Z.id; reflexivity|].
-    intros more. rewrite E, <- !app_assoc. cbn [app]. rewrite (ref_find_miss_app refs a RStruct (m ++ more) 0 NZ H). reflexivity.
+    match goal with X : dgs _ _ _ _ _ |- _ => destruct (dgs_extends _ _ _ _ _ X) as [m E] end.
+    exists (Z.of_nat (length refs)), ty0. split; [rewrite Nat2Z.id; reflexivity|].
+    intros more. rewrite E, <- !app_assoc. cbn [app].
+    match goal with X : ref_find refs a RStruct 0 = None |- _ => rewrite (ref_find_miss_app refs a RStruct (m ++ more) 0 NZ X) end. reflexivity.
 Qed.
 Theorem ordinals_identify_addresses refs a b i j : ref_find refs a RStruct 0 = Some i -> ref_find refs b RStruct 0 = Some j ->
   (i = j <-> a = b).
